@@ -93,7 +93,7 @@ CHECKS = {
          "TLA+ spec Moves (rank by breadth-first search from CA with the special cases, moved set beyond the pivot): TLC computes rank and moved set for every residue type x position x dihedral of the current topology and judges the real get_moveable_names answer (MovesTrace); every real torsion change and the final geometry of traced clash/hydrogen-bond runs are judged; the stage clause is checked on the same runs against Pipeline.tla (PipelineTrace)",
          "All ~200 (residue type / named variant x chain position x dihedral) cases of the current topology files are put to the real code after set_termini/add_hydrogens/set_reference_distance; TLC's own computation must equal the real rank and moved set and RigidSafe must hold on the real answer (no backbone or terminal-cap atom moves, no bond cut off the axis, over the bond graph of the patched topology object); in ~380 traced runs (random and hard clash environments, hydrogen-bond environments, omitted atoms, repository structures, forbidding options) every set_dihedral_angle/rotate_tetrahedral is judged on distances to the axis, rigidity of the moved set and fixed axis atoms, the end of each run on bond lengths/angles among input heavy atoms, backbone displacement and NoMoveWhenForbidden, and the stage events on HeavyOnlyInMoveStages.",
          "Deviations are measured by harness float code, thresholds judged by TLC; bonded pairs = pairs closer than 1.95 A in the input; debump histories that return to a changed dihedral are reached by random search (count in evidence).",
-         "DESIGN.md 6/C04", ["Moves", "MovesTrace", "Pipeline", "PipelineTrace"]),
+         "DESIGN.md 6/C04", ["Moves", "MovesTrace", "Pipeline", "PipelineTrace", "Debump", "DebumpTrace"]),
  "C05": ("model_checking",
          "TLA+ spec Placement (the add_hydrogens loop: tetrahedral paths by the parent's bond count, else three-point superposition on the first three available atoms of get_nearest_bonds; the repair_heavy work queue with deferral): every residue of every traced run is a case whose observed sequence of (atom, construction path, reference atoms, atoms actually handed to the superposition) TLC must reproduce, with the clauses ParentAmongRefs / ReferencePairing / PeptideNeighbourBonded / EveryHydrogenPlaced judged on the observation; every added atom of every final model is judged by PlacementTrace on bond length, bond angles, attachment and coincidence against its patched template",
          "~150 (quick) / ~700 (thorough) traced runs: every residue type at every chain position (heavy atoms only, side-chain atoms removed singly and in groups), hydrogen-bond environments that drive each optimisation class, a backbone gap, nucleic strands, partly protonated input, titration runs and neutral termini, 1AJJ with each side chain cut after CB (rebuilt atoms clash, both debump passes act), repository structures; random side-chain conformations, equivalent-name exchanges, resolved acids; ~900/5000 residue cases and ~8000/55000 added atoms.",
